@@ -21,10 +21,12 @@ tvars == <<l, s, sc, mode, lastReq, res>>
 PointOf(ty, ix) == IF \E p \in 1..NP : Pts[p].ty = ty /\ Pts[p].ix = ix
                      THEN CHOOSE p \in 1..NP : Pts[p].ty = ty /\ Pts[p].ix = ix ELSE 0
 
-HdrTok(h) == CASE h.g = 60 /\ h.v = 1 /\ h.q = 6 -> [n |-> "c0", lim |-> -1]
-               [] h.g = 60 /\ h.v \in 2..4 /\ h.q = 6 -> [n |-> "c" \o ToString(h.v - 1), lim |-> -1]
-               [] h.g = 60 /\ h.v \in 2..4 /\ h.q = 7 -> [n |-> "c" \o ToString(h.v - 1), lim |-> h.a]
-               [] OTHER -> [n |-> "?", lim |-> -1]
+HdrTok(h) == CASE h.g = 60 /\ h.v = 1 /\ h.q = 6 -> [n |-> "c0", lim |-> -1, v |-> 0]
+               [] h.g = 60 /\ h.v \in 2..4 /\ h.q = 6 -> [n |-> "c" \o ToString(h.v - 1), lim |-> -1, v |-> 0]
+               [] h.g = 60 /\ h.v \in 2..4 /\ h.q = 7 -> [n |-> "c" \o ToString(h.v - 1), lim |-> h.a, v |-> 0]
+               [] h.g = 2 /\ h.v \in {0, 1} /\ h.q = 6 /\ (\E p \in 1..NP : Pts[p].ty = "bi") ->
+                    [n |-> "bi", lim |-> -1, v |-> h.v]
+               [] OTHER -> [n |-> "?", lim |-> -1, v |-> 0]
 ClsOf(hdrs) == {hdrs[i].v - 1 : i \in {j \in 1..Len(hdrs) : hdrs[j].g = 60 /\ hdrs[j].v \in 2..4 /\ hdrs[j].q = 6}}
 
 \* the resolved input a line records, or [k |-> "?"] when the specification has no such input
